@@ -124,7 +124,7 @@ def register_process(engine):
     engine.spec_funcs['newline_used'] = VFunc(f_newline_used, 'newline_used')
 
 
-def register_read(engine):
+def register_read(engine, with_short_read=True):
     """_read_content verified; _process_content by contract."""
     E = errs()
     T.install_spec(engine)
@@ -150,7 +150,7 @@ def register_read(engine):
                 UnicodeError: 'self._linenum == old(self._linenum)'},
         exc_attrs={E.DiffXParseError: {'linenum': Int(), 'column': Box()}},
     ))
-    engine.add(Contract(
+    rc = Contract(
         RC,
         params={
             'self': Obj('pydiffx.reader.DiffXReader', _fp=Stream(),
@@ -179,4 +179,7 @@ def register_read(engine):
         ],
         raises={E.DiffXParseError: 'exc_linenum == old(self._linenum)'},
         exc_attrs={E.DiffXParseError: {'linenum': Int(), 'column': Box()}},
-    ))
+    )
+    if not with_short_read:
+        rc.ensures = [e for e in rc.ensures if e[0] != 'short_read_detected']
+    engine.add(rc)
